@@ -23,6 +23,7 @@ CASE_TIMEOUT = 600
 BATCH_SIZE = {'quick': 1, 'thorough': 1}
 REQUIRED_COUNTERS = ['runs_compared', 'distinct_completion_orders_observed',
                      'non_dispatch_orders_observed', 'hashseed_runs',
+                     'tied_vote_records_in_baseline_mapping',
                      'worker_count_runs']
 RULE = ('case = (stage, input seed); baseline run + variants: forced '
         'completion orders of the stage\'s workers (thorough: every '
@@ -104,7 +105,11 @@ def run_case(spec, work):
     n_workers = base['n_workers']
     counters['workers_' + stage] = n_workers
     keys = [k for k in base if k not in ('traceback', 'finish_order',
-                                         'turn_timeouts', 'n_workers')]
+                                         'turn_timeouts', 'n_workers',
+                                         'tied_vote_records')]
+    if 'tied_vote_records' in base:
+        counters['tied_vote_records_in_baseline_mapping'] = \
+            base['tied_vote_records']
 
     def compare(res, what):
         if 'exception' in res:
@@ -163,6 +168,11 @@ def run_case(spec, work):
     # (b) hash seeds
     seeds = ['1', '42'] if spec['tier'] == 'quick' else \
         ['1', '42', '4242', 'random']
+    if stage.startswith('mapping'):
+        # tie-breaks between children with equal votes are where a
+        # hash-ordered container would show: more hash seeds here
+        seeds = ['1', '42', '7', '1234', '99'] if spec['tier'] == 'quick' \
+            else ['1', '42', '7', '1234', '99', '4242', 'random', 'random']
     for hs in seeds:
         res = variant(hashseed=hs)
         counters['hashseed_runs'] = counters.get('hashseed_runs', 0) + 1
